@@ -90,6 +90,12 @@ func ssParkFlusher() {
 
 func (h *ssHost) open() {
 	ssParkFlusher()
+	defer func() {
+		// a shard that does not start is a finding about the history so far: make the history part of the report
+		if r := recover(); r != nil {
+			panic(fmt.Sprintf("%v\nshard does not start after: %s", r, strings.Join(ssCurSeq(), " ; ")))
+		}
+	}()
 	h.sh = newShard(h.dir, shardCfg{wc: h.wc, epoch: h.ep, metaOpts: []meta.Option{meta.WithBoltDBOptions(ssBoltOpts())}, extra: []shard.Option{shard.WithContainerPayments(&payFake{disabled: true})}})
 	h.sh.VerifHandleNewEpoch(h.ep.e.Load()) // the node announces the current epoch after a start
 }
@@ -460,6 +466,7 @@ func (h *ssHost) observe(c *runCtx, expect map[int][]byte) ssObs {
 }
 
 func ssExec(c *runCtx, ops []string) {
+	ssSeqCtx = c
 	verifhook.SetPoint(func(name string) { ssSchedulePoint(name) })
 	dir := scratchDir("shardst")
 	defer os.RemoveAll(dir)
@@ -760,4 +767,14 @@ func ssGenC09(c *runCtx, run func([]string)) {
 	for i := 0; i < c.n(6, 500); i++ {
 		run(mk(6+c.rng.IntN(8), true))
 	}
+}
+
+// ssSeq is the op sequence executed so far (for diagnostics only).
+var ssSeqCtx *runCtx
+
+func ssCurSeq() []string {
+	if ssSeqCtx == nil {
+		return nil
+	}
+	return ssSeqCtx.curSeq
 }
